@@ -105,4 +105,8 @@ def SCObject.module (ts : String) (o : SCObject) : Codec.PixelModule :=
   ⟨ts, o.rows, o.cols, o.samplesPerPixel.toNat, o.bitsAllocated, some o.bitsStored, o.photometricInterpretation,
    o.pixelRepresentation, o.planarConfiguration⟩
 
+/-- the pixel module of a written parametric map with integer pixel data, as the readers see it -/
+def PMObject.module (ts : String) (o : PMObject) : Codec.PixelModule :=
+  ⟨ts, o.rows, o.cols, 1, o.bitsAllocated, some o.bitsStored, "MONOCHROME2", o.pixelRepresentation, none⟩
+
 end HdVerif.PMap
